@@ -486,7 +486,7 @@ class Engine:
             if v.cls.lookup("__len__") is not None:
                 raise EngineLimit("truthiness through __len__ of %s" % v.cls.name)
             return True
-        if isinstance(v, (V.ClassVal, V.Closure, V.BoundMethod, V.Builtin, V.EnumV, RecV, ExcVal, V.ExtClass)):
+        if isinstance(v, (V.ClassVal, V.Closure, V.BoundMethod, V.Builtin, V.EnumV, RecV, ExcVal, V.ExtClass, V.Recorder)):
             return True
         if isinstance(v, V.Opaque):
             raise EngineLimit("truthiness of opaque value %s" % v.what)
@@ -839,6 +839,13 @@ class Engine:
         if self_obj is not None and (is_init or self._is_mutable(cls)):
             for label, inv in self.class_invariants(ctx, self_obj, contract_cls(self, contract, cls)):
                 ctx.oblige("%s/inv#%s" % (short(ctx.func), label), lift_bool(inv), kind="inv")
+
+    def _owns_state(self, cls) -> bool:
+        for c in cls.mro():
+            cs = self.reg.classes.get(c.qualname)
+            if cs and getattr(cs, "owns_state", False):
+                return True
+        return False
 
     def _is_mutable(self, cls) -> bool:
         for c in cls.mro():
@@ -1559,6 +1566,11 @@ class Engine:
             if set(vals) != set(callee.fields):
                 raise PyRaise(ExcVal(V.ExtClass("TypeError")))
             return RecV(callee.name, {f: vals[f] for f in callee.fields})
+        if isinstance(callee, V.Recorder):
+            if kwargs:
+                raise EngineLimit("keyword arguments to a recorded callable")
+            callee.calls.items.append(tuple(args))
+            return None
         if isinstance(callee, V.SymClosure):
             from . import mutstate
 
@@ -1711,6 +1723,10 @@ class Engine:
             from . import mutstate
 
             ns.__dict__["old"] = mutstate.snapshot(nsd["self"])  # pre-state of a materialised (mutable) receiver
+            if self._owns_state(nsd["self"].cls):
+                for av in bound.values():
+                    if isinstance(av, Obj) and av.fields is not None and av is not nsd["self"] and not self._owns_state(av.cls):
+                        mutstate.publish(self, ctx, av)
         callee = short(contract.qualname)
         for label, c in self.run_spec(ctx, lambda: contract.clauses("pre", ns)):
             ctx.oblige("%s/pre#%s#%s" % (short(ctx.func), callee, label), lift_bool(c), kind="pre")
@@ -1754,10 +1770,13 @@ class Engine:
             hv = getattr(contract.impl, "havoc", None)
             if hv is not None:
                 # fields of materialised objects reachable from the arguments that the callee may assign
-                for hobj, fname in self.run_spec(ctx, hv, ns):
+                for hentry in self.run_spec(ctx, hv, ns):
+                    hobj, fname = hentry[0], hentry[1]
                     if not isinstance(hobj, Obj) or hobj.fields is None:
                         raise EngineLimit("havoc of a field of a non-materialised object")
                     k, _ = self.field_kind(hobj.cls, fname)
+                    if len(hentry) > 2:
+                        k = hentry[2]  # the kind of the new value is given by the contract (e.g. a list that grew)
                     if k is None:
                         raise EngineLimit("no field kind declared for %s.%s" % (hobj.cls.qualname, fname))
                     hobj.fields[fname] = ctx.fresh_kind("havoc." + fname, k)
